@@ -157,6 +157,15 @@ ea_op(const char * op, size_t a, size_t b, int refuse)
 		b = 1;
 	cur_refuse = refuse;
 	simalloc_refuse_shrink = refuse;
+	if (!strcmp(op, "shrink_edge") || !strcmp(op, "resize_edge")) {
+		/* record counts whose product with the record size wraps around: k * (2^64 / reclen) + 1 + r */
+		size_t k = 1 + (a / 8) % (b > 1 ? b - 1 : 1);
+
+		if (b < 2)
+			b = 2;
+		a = k * (SIZE_MAX / b) + 1 + (a % 8);
+		op = op[0] == 's' ? "shrink" : "resize";
+	}
 	if (!strcmp(op, "append_edge")) {
 		/* record counts right at the overflow boundary of the current size: SIZE_MAX/reclen - size/reclen - 1, +0, +1 */
 		a = SIZE_MAX / b - msize / b + (a % 3) - 1;
@@ -351,6 +360,10 @@ eq_check(const char * after)
 	LIB_ENTER();
 	if (elasticqueue_get(EQ, qn) != NULL || elasticqueue_get(EQ, qn + 7) != NULL)
 		sim_viol("C12.eq.content", "beyond", "elasticqueue_get beyond the end returned a record");
+	for (i = 0; i < 6; i++)
+		if (elasticqueue_get(EQ, SIZE_MAX - i) != NULL || elasticqueue_get(EQ, SIZE_MAX / 2 + i) != NULL ||
+		    elasticqueue_get(EQ, SIZE_MAX / eq_reclen - i) != NULL || elasticqueue_get(EQ, SIZE_MAX / eq_reclen + 1 + i) != NULL)
+			sim_viol("C12.eq.content", "beyond-huge", "elasticqueue_get of a huge position returned a record");
 	LIB_LEAVE();
 }
 
@@ -1077,9 +1090,9 @@ tq_drain(void)
 static void
 asprintf_op(size_t a, size_t b)
 {
-	char * out = (char *)0x1, want[700], pad[600];
+	char * out = (char *)0x1, want[1400], pad[1100];
 	int rc, wl, f0 = simalloc_failed;
-	size_t n = a % 500, live0 = simalloc_lib_live(NULL);
+	size_t n = (a % 7 == 0 ? 990 + a % 50 : a % 500), live0 = simalloc_lib_live(NULL);
 
 	R->cnt[N_OPS]++;
 	memset(pad, 'q', n);
@@ -1152,6 +1165,8 @@ engine_gen(struct plan * P, uint64_t seed, struct prng * g)
 				plan_add(P, "step", "resize", 3, (int64_t)(prng_chance(g, 15) ? prng_n(g, 3000) : prng_n(g, 40)), (int64_t)r, (int64_t)ref);
 			else if (x < 52)
 				plan_add(P, "step", "resize", 3, (int64_t)-1 - (int64_t)prng_n(g, 100), (int64_t)(2 + prng_n(g, 30)), (int64_t)0);
+			else if (x < 53)
+				plan_add(P, "step", prng_chance(g, 60) ? "shrink_edge" : "resize_edge", 3, (int64_t)prng_n(g, 64), (int64_t)(2 + prng_n(g, 15)), (int64_t)0);
 			else if (x < 72)
 				plan_add(P, "step", "shrink", 3, (int64_t)(prng_chance(g, 20) ? prng_n(g, 3000) : prng_n(g, 12)), (int64_t)r, (int64_t)ref);
 			else if (x < 78)
